@@ -25,6 +25,8 @@ REVERSE = {   # name: fix commit subject prefix
     'C15-sparse-rhs-imag': 'fix: assigning a real sparse matrix to entries of a complex dense matrix',
     'C15-slice-1x1': 'fix: A[slice, slice] = 1x1 matrix of the same type is refused',
     'C15-irem-zero-frees-buffer': 'fix: A %= 0 frees the buffer of A',
+    'C16-emax-1x1-empty-sparse': 'fix: max/min with a 1x1 sparse matrix without stored entries',
+    'C16-spdiag-row-vector': 'fix: spdiag of a sparse row vector',
 }
 
 CUSTOM = {
